@@ -124,6 +124,7 @@ Definition show (t : list (list N)) (v : hval) : list N :=
   | VInt z => 73 :: 58 :: Z_to_str z
   | VFloat l => 70 :: 58 :: lookup l t
   | VStr s => 83 :: 58 :: s
+  | VNone => [79]
   end.
 Definition run (i : list N) : list N :=
   match fields i with
